@@ -37,6 +37,32 @@ type c01Reader struct {
 	entries int
 	calls   int
 	seen    map[*yang.Entry]bool
+	op      string   // the history operation in progress
+	panics  []string // distinct panics of read calls (a read that panics does not stop the walk)
+	pseen   map[string]bool
+}
+
+// try runs one read call; a panic is recorded (once per api and message) and the walk goes on.
+func (r *c01Reader) try(api string, f func()) {
+	defer func() {
+		if x := recover(); x != nil {
+			msg := strings.ReplaceAll(fmt.Sprint(x), "\n", " ")
+			if len(msg) > 300 {
+				msg = msg[:300]
+			}
+			fr := c01Frames(debug.Stack())
+			key := strings.SplitN(api, "(", 2)[0] + "|" + msg + "|" + fr
+			if r.pseen == nil {
+				r.pseen = map[string]bool{}
+			}
+			if !r.pseen[key] && len(r.panics) < 6 {
+				r.pseen[key] = true
+				r.panics = append(r.panics, fmt.Sprintf("PANIC:op=%s api=%s msg=%s at=%s", r.op, api, msg, fr))
+			}
+		}
+	}()
+	r.calls++
+	f()
 }
 
 func c01Frames(stack []byte) string {
@@ -97,33 +123,23 @@ func (r *c01Reader) probes(e *yang.Entry) []string {
 
 func (r *c01Reader) readEntry(e *yang.Entry) {
 	r.entries++
-	r.api = "Namespace"
-	_ = e.Namespace()
-	r.api = "InstantiatingModule"
-	_, _ = e.InstantiatingModule()
-	r.api = "ReadOnly"
-	_ = e.ReadOnly()
-	r.api = "DefaultValues"
-	_ = e.DefaultValues()
-	r.api = "SingleDefaultValue"
-	_, _ = e.SingleDefaultValue()
-	r.api = "Path"
-	_ = e.Path()
-	r.api = "GetWhenXPath"
-	_, _ = e.GetWhenXPath()
-	r.api = "Modules"
-	_ = e.Modules()
-	r.api = "Is*"
-	_ = e.IsDir() || e.IsLeaf() || e.IsLeafList() || e.IsList() || e.IsContainer() || e.IsChoice() || e.IsCase()
-	r.calls += 9
+	r.try("Namespace", func() { _ = e.Namespace() })
+	r.try("InstantiatingModule", func() { _, _ = e.InstantiatingModule() })
+	r.try("ReadOnly", func() { _ = e.ReadOnly() })
+	r.try("DefaultValues", func() { _ = e.DefaultValues() })
+	r.try("SingleDefaultValue", func() { _, _ = e.SingleDefaultValue() })
+	r.try("Path", func() { _ = e.Path() })
+	r.try("GetWhenXPath", func() { _, _ = e.GetWhenXPath() })
+	r.try("Modules", func() { _ = e.Modules() })
+	r.try("Is*", func() {
+		_ = e.IsDir() || e.IsLeaf() || e.IsLeafList() || e.IsList() || e.IsContainer() || e.IsChoice() || e.IsCase()
+	})
 	if strings.Contains(r.opts, "f") {
 		for _, p := range r.probes(e) {
-			r.api = "Find(" + strconv.Quote(p) + ")"
-			_ = e.Find(p)
-			r.calls++
+			p := p
+			r.try("Find("+strconv.Quote(p)+")", func() { _ = e.Find(p) })
 		}
 	}
-	r.api = ""
 }
 
 func (r *c01Reader) walk(e *yang.Entry, depth int) {
@@ -184,16 +200,15 @@ func (r *c01Reader) readAll(ms *yang.Modules) {
 			sort.Strings(keys)
 			for _, k := range keys {
 				m := mm[k]
-				r.api = "ToEntry"
-				e := yang.ToEntry(m)
-				r.api = "GetErrors"
-				_ = e.GetErrors()
-				r.calls += 2
+				var e *yang.Entry
+				r.try("ToEntry", func() { e = yang.ToEntry(m) })
+				if e == nil {
+					continue
+				}
+				r.try("GetErrors", func() { _ = e.GetErrors() })
 				r.walk(e, 0)
 				if strings.Contains(r.opts, "q") {
-					r.api = "Print"
-					e.Print(io.Discard)
-					r.calls++
+					r.try("Print", func() { e.Print(io.Discard) })
 				}
 				r.api = "Identities"
 				seenID := map[*yang.Identity]bool{}
@@ -250,6 +265,7 @@ func c01Hist(toks []string) (out string) {
 	var sum []string
 	for k, op := range strings.Split(ops, ",") {
 		cur = fmt.Sprintf("%d:%s", k, op)
+		r.op = cur
 		switch {
 		case op == "P":
 			r.api = "Process"
@@ -297,6 +313,9 @@ func c01Hist(toks []string) (out string) {
 			}
 			sum = append(sum, fmt.Sprintf("G%d", len(errs)))
 		}
+	}
+	if len(r.panics) > 0 {
+		return strings.Join(r.panics, " ALSO ")
 	}
 	return fmt.Sprintf("ok %s entries=%d calls=%d", strings.Join(sum, ","), r.entries, r.calls)
 }
